@@ -263,6 +263,10 @@ class MappingStorage:
 
         self._tdata[oid] = data
 
+        # Like the other storages, never hand out the id of a record that
+        # was stored under an id we did not issue (e.g. copied in).
+        self._oid = max(self._oid, ZODB.utils.u64(oid))
+
     checkCurrentSerialInTransaction = (
         ZODB.BaseStorage.checkCurrentSerialInTransaction)
 
